@@ -495,6 +495,8 @@ def decode (p : Proto) (strict : Bool) : Nat → Ty → Bytes → Val → R Val
           else decodeSet p strict fuel kt n r .nil
       else
         (rMap p b).bind fun ((k, v, n), r) =>
+          let k := if k == .true_ then TType.bool else k        -- `if m.Key == TRUE { m.Key = BOOL }`
+          let v := if v == .true_ then TType.bool else v        -- `if m.Value == TRUE { m.Value = BOOL }`
           if n == 0 then .ok (.map .nil, r)
           else if typeOf kt != k then (if strict then .err "typeMismatch" else .ok (.map .nil, r))
           else if typeOf vt != v then (if strict then .err "typeMismatch" else .ok (.map .nil, r))
